@@ -53,6 +53,9 @@ def match_all(chk, rule, f, ex, contribs, wanted):
         if hit is not None:
             used.add(hit)
             chk.instance(rule, '%s %s: %s' % (f.unit.where(contribs[hit].node), f.name, d['text']))
+        elif not any(c.out[0] == d['out'][0] for c in contribs):
+            # nothing stores into that container by cell: it is filled some other way (a kernel call, a helper): not recognised, no verdict
+            chk.broke('%s: no cell store into %s was found (filled by a call?): `%s` cannot be examined' % (f.name, d['out'][0], d['text']))
         else:
             chk.instance(rule, '%s %s: no store matches %s (%s)' % (f.where, f.name, d['text'], last), 'refuted')
             chk.violation(Finding(rule, rel(f.file), f.name, 'missing:' + d['text'][:40], f.where,
